@@ -1,6 +1,7 @@
 (* C02 — accepted input yields one well-formed single-line expression (the part carried by theorems). *)
 From Coq Require Import String List NArith ZArith Bool.
-From OL Require Import PyAst Unparse StrLit SingleLine.
+From OL Require Import PyAst Unparse StrLit SingleLine Parse ParseProof ParseTie.
+From OLGen Require Import Tables.
 Import ListNotations.
 
 (* Whatever expression tree the converter hands to the project's own unparser, the text has no line break. *)
@@ -12,3 +13,12 @@ Example C02_nonvacuous :
   lex_ok (Call (Name "print") [Constant (CStr [10; 13; 39; 34; 92]%N);
           JoinedStr [Constant (CStr [10]%N); FormattedValue (Name "x") 114%Z None]] []) = true.
 Proof. exact lex_ok_example. Qed.
+
+(* "Exactly one expression": for every output tree inside the core of C03 (every explored output is classified, see the
+   evidence: the outputs without f-strings / yield are inside), the tokens of the text the unparser model produces are read by
+   the expression parser as exactly that tree, with no token left over.  PARTIAL: outside the core this rests on CPython's
+   compile() of every explored output. *)
+Theorem C02_core_output_is_one_expression_partial : forall e, core_top e = true ->
+  exists f0, forall f, f0 <= f -> pc f (MExpr slot_top) (norm (unparse_toks e)) = Some (e, []).
+Proof. exact roundtrip_unparser_core_top. Qed.
+Print Assumptions C02_core_output_is_one_expression_partial.
